@@ -35,6 +35,7 @@ def _case(draw):
     scheds = [draw(sc.schedules(max_len=100)) for _ in range(3)]
     case = {'n': n, 'edges': edges, 'outcomes': outs, 'workers': workers, 'scheds': scheds}
     case.update(draw(sc.extras(n)))
+    case.update(draw(sc.preludes(n, with_init=False)))
     return case
 
 
@@ -162,8 +163,8 @@ def run_case(case):
         runs.append((case['sched'], case['workers']))
     maps = {}
     for spec, workers in runs:
-        sub = {'n': case['n'], 'edges': case['edges'], 'outcomes': case['outcomes'],
-               'workers': workers, 'sched': spec}
+        sub = {k: v for k, v in case.items() if k != 'scheds'}     # keeps order / groups / prelude
+        sub.update(workers=workers, sched=spec)
         rec = sc.execute(sub)
         fails, statuses = judge(sub, rec, sub)
         out.failures.extend(fails)
